@@ -94,7 +94,13 @@ JudgeLimit(c) ==
     IF ~c.setok THEN {"INFO.setfailed"}
     ELSE IF c.getok /\ c.got = c.value THEN {} ELSE {"C19.LimitRoundTrip"}
 
+\* a step of a sequence of mode changes on one object: the getter reports the mode that was just set
+JudgeSeqStep(c) ==
+    IF ~c.setok THEN {"INFO.setfailed"}
+    ELSE IF c.getok /\ c.got = c.mode THEN {} ELSE {"C19.RoundTrip"}
+
 Judge(c) == CASE c.kind = "enc" -> JudgeEnc(c)
+              [] c.kind = "seqstep" -> JudgeSeqStep(c)
               [] c.kind = "mode" -> JudgeMode(c)
               [] c.kind = "limit" -> JudgeLimit(c)
 
